@@ -95,6 +95,27 @@ func child(seed int64, tier string, from, to, only, conc int, outPath, progPath,
 			continue
 		}
 		i := i
+		if i%10 == 3 {
+			// a relay with a stalled upstream (crowd.go) takes the place of another tenth
+			wg.Add(1)
+			go func() {
+				defer wg.Done()
+				sl.acquire()
+				defer sl.release()
+				pmu.Lock()
+				fmt.Fprintf(pf, "START %d\n", i)
+				pmu.Unlock()
+				sr := relayStallScenario(root.Derive("stall", i), i, watchdog)
+				b, _ := json.Marshal(map[string]interface{}{"stall": sr})
+				pmu.Lock()
+				w.Write(b)
+				w.WriteByte('\n')
+				w.Flush()
+				fmt.Fprintf(pf, "DONE %d\n", i)
+				pmu.Unlock()
+			}()
+			continue
+		}
 		if i%10 == 7 {
 			// a crowd scenario (crowd.go) takes the place of every tenth topology scenario
 			wg.Add(1)
@@ -352,6 +373,26 @@ func main() {
 				map[string]interface{}{"exit": res.ExitCode, "signal": res.Signal, "last_started_scenario": last, "scenarios_running": open, "fatal": fatal})
 		}
 		for _, l := range vh.ReadLines(out) {
+			if strings.HasPrefix(l, `{"stall":`) {
+				var x struct {
+					Stall *StallRec `json:"stall"`
+				}
+				if json.Unmarshal([]byte(l), &x) == nil && x.Stall != nil {
+					sr := x.Stall
+					if sr.NotJudged != "" {
+						run.Drop("relay-stall scenario not judged: " + sr.NotJudged)
+						continue
+					}
+					run.Count("relay_stall_scenarios", 1)
+					run.Count("relay_stall_reports_before_backup", sr.Reports)
+					for k, kind := range sr.Kinds {
+						run.Violate(sr.Idx, kind, map[string]string{"call": "RemoteCollector stop", "trigger": "relay-upstream-stalled"},
+							map[string]interface{}{"scenario": sr, "note": sr.Notes[k]})
+					}
+					run.Case(vh.HashS(fmt.Sprintf("stall-%d-%d", sr.Idx, sr.Collectors)), true)
+				}
+				continue
+			}
 			if strings.HasPrefix(l, `{"crowd":`) {
 				var x struct {
 					Crowd *CrowdRec `json:"crowd"`
